@@ -6,7 +6,7 @@ CONSTANTS
   MaxOps = 3
   MaxTables = 3
   MaxSessions = 1
-  Cfgs <- CfgsSmall
+  Cfgs <- CfgsOne
   DropTombAlways = FALSE
   BufferedHandoff = FALSE
   MaxHist = 30
